@@ -155,6 +155,37 @@ def normalise(fnode, folded, transparent=()):
     return n
 
 
+def alpha(fnode):
+    """The function with its local variables (names it binds itself, parameters excluded; nested definitions left alone) renamed to v0, v1, ..
+    in order of first appearance: two bodies that differ by a one-to-one renaming of locals become equal."""
+    n = copy.deepcopy(fnode)
+    a = n.args
+    params = set(x.arg for x in a.posonlyargs + a.args + a.kwonlyargs) | set(x.arg for x in (a.vararg, a.kwarg) if x is not None)
+    if any(isinstance(x, (ast.FunctionDef, ast.AsyncFunctionDef, ast.Lambda, ast.ClassDef, ast.Global, ast.Nonlocal)) for st in n.body for x in ast.walk(st)):
+        return n
+    bound = set()
+    for st in n.body:
+        for x in ast.walk(st):
+            if isinstance(x, ast.Name) and isinstance(x.ctx, (ast.Store, ast.Del)) and x.id not in params:
+                bound.add(x.id)
+            elif isinstance(x, ast.ExceptHandler) and x.name and x.name not in params:
+                bound.add(x.name)
+    ren = {}
+    for st in n.body:
+        for x in ast.walk(st):
+            if isinstance(x, ast.Name) and x.id in bound and x.id not in ren:
+                ren[x.id] = "v%d" % len(ren)
+            elif isinstance(x, ast.ExceptHandler) and x.name in bound and x.name not in ren:
+                ren[x.name] = "v%d" % len(ren)
+    for st in n.body:
+        for x in ast.walk(st):
+            if isinstance(x, ast.Name) and x.id in ren:
+                x.id = ren[x.id]
+            elif isinstance(x, ast.ExceptHandler) and x.name in ren:
+                x.name = ren[x.name]
+    return n
+
+
 def first_diff(a, b, path="body"):
     """Human-readable location of the first structural difference between two AST nodes."""
     if type(a) is not type(b):
@@ -278,6 +309,10 @@ def check(ctx, R):
         ns = normalise(sf.node, folded)
         na = normalise(af.node, folded, transparent)
         ds, da = ast.dump(ns), ast.dump(na)
+        if ds != da:
+            ds2, da2 = ast.dump(alpha(ns)), ast.dump(alpha(na))
+            if ds2 == da2:
+                ds, da = ds2, da2          # equal up to a one-to-one renaming of local variables
         if ds == da:
             equal += 1
             R.ok("TWIN-equal", k, "normalised ASTs equal (%d nodes)" % sum(1 for _ in ast.walk(ns)), sf.loc())
